@@ -21,3 +21,55 @@ def run(ctx, b, drv):
     base.mismatches(ctx, pend0, streams.run_refactor(ctx, base.scale(ctx, 800), drv), None)
     pend0.flush()
     base.std_text_check(ctx, b, drv, VFILES, ['parse'], pred, 500, 800, 'c19')
+    refactor_after_incremental(ctx, base.scale(ctx, 120))
+
+
+def refactor_after_incremental(ctx, n):
+    """the node-to-text map is built on a cached module, the file is then re-parsed incrementally (the diff parser keeps nodes and moves them), and the
+    map is applied to the updated module: every key that is still part of the tree must be replaced, exactly as a splice by identity says"""
+    import parso
+    from parso import cache as pcache
+    from harness.props import C04
+    for i in range(n):
+        r = gens.rng(ctx.seed, 'c19-inc', i)
+        hist = C04.gen_history(r)
+        v = r.choice(streams.versions())
+        g = parso.load_grammar(version=v)
+        path = '/verif/.work/c19-virtual-%d.py' % i
+        pcache.parser_cache.pop(g._hashed, None)
+        try:
+            m = g.parse(hist[0], diff_cache=True, path=path)
+        except Exception:
+            continue
+        chosen = {}
+        for node in preds.iter_nodes(m):
+            if node is not m and r.random() < (0.3 if not hasattr(node, 'children') else 0.05):
+                chosen[node] = '<%d>' % len(chosen)
+        for step, text in enumerate(hist[1:], 1):
+            ctx.count('c19-incremental-refactor')
+            try:
+                m2 = g.parse(text, diff_cache=True, path=path)
+            except Exception:
+                break          # C04's business
+            live = {id(x) for x in preds.iter_nodes(m2)}
+            ids = {id(k): t for k, t in chosen.items() if id(k) in live}
+
+            def expect(x):
+                if id(x) in ids:
+                    return ids[id(x)]
+                if hasattr(x, 'children'):
+                    return ''.join(expect(c) for c in x.children)
+                return x.prefix + x.value
+            try:
+                got = g.refactor(m2, chosen)
+                want = expect(m2)
+            except RecursionError:
+                break
+            except Exception as e:
+                ctx.violation('C19:refactor-raises-after-incremental-parse:%s' % type(e).__name__, dict(kind='history', version=v, steps=hist[:step + 1]))
+                break
+            if got != want:
+                ctx.violation('C19:refactor-splice-after-incremental-parse', dict(kind='history', version=v, steps=hist[:step + 1], keys=len(ids),
+                                                                                got=got[:200], want=want[:200]))
+                break
+        pcache.parser_cache.pop(g._hashed, None)
